@@ -231,12 +231,24 @@ func (dec *msgAppV2Decoder) decode() (raftpb.Message, error) {
 			return m, err
 		}
 		l := binary.BigEndian.Uint64(dec.uint64buf)
-		m.Entries = make([]raftpb.Entry, int(l))
+		// a corrupted count or length must be an error, not a huge allocation
+		if l > readBytesLimit {
+			return m, ErrExceedSizeLimit
+		}
+		// and the count is not trusted for the allocation either
+		capHint := l
+		if capHint > 1024 {
+			capHint = 1024
+		}
+		m.Entries = make([]raftpb.Entry, 0, int(capHint))
 		for i := 0; i < int(l); i++ {
 			if _, err := io.ReadFull(dec.r, dec.uint64buf); err != nil {
 				return m, err
 			}
 			size := binary.BigEndian.Uint64(dec.uint64buf)
+			if size > readBytesLimit {
+				return m, ErrExceedSizeLimit
+			}
 			var buf []byte
 			if size <= msgAppV2BufSize {
 				buf = dec.buf[:size]
@@ -251,10 +263,12 @@ func (dec *msgAppV2Decoder) decode() (raftpb.Message, error) {
 			}
 			dec.index++
 			// 1 alloc
-			err := pbutil.MaybeUnmarshal(&m.Entries[i], buf)
+			var ent raftpb.Entry
+			err := pbutil.MaybeUnmarshal(&ent, buf)
 			if err != nil {
 				return m, err
 			}
+			m.Entries = append(m.Entries, ent)
 		}
 		// decode commit index
 		if _, err := io.ReadFull(dec.r, dec.uint64buf); err != nil {
@@ -265,6 +279,9 @@ func (dec *msgAppV2Decoder) decode() (raftpb.Message, error) {
 		var size uint64
 		if err := binary.Read(dec.r, binary.BigEndian, &size); err != nil {
 			return m, err
+		}
+		if size > readBytesLimit {
+			return m, ErrExceedSizeLimit
 		}
 		var buf []byte
 		if size <= msgAppV2BufSize {
